@@ -9,7 +9,7 @@ section main
 variable (cx : Cx) (fuel : Nat) (lv : Nat)
 
 mutual
-theorem cStmt_c : ∀ (st : Stmt) (lb : Nat), cgStmt lv st = true → ∀ (env : Src.Env), PlainEnv env →
+theorem cStmt_c : ∀ (st : Stmt) (lb : Nat), cgStmt lv st = true → ∀ (env : Src.Env), EnvOK cx env →
     PM cx (cStmt [] lb st) (fun k b => Src.tr fuel [] env (toSrcStmt st) k b) env
   | .op n ps, lb, hg, env, he => simple_pm cx fuel _ lb (by simpa [cgStmt] using hg) env he
   | .ret, lb, _, env, he => simple_pm cx fuel _ lb rfl env he
@@ -54,7 +54,7 @@ theorem cStmt_c : ∀ (st : Stmt) (lb : Nat), cgStmt lv st = true → ∀ (env :
       (simple_c cx fuel inc _ hg.1.2 env he) (fun env' he' => cStmts_c body _ hg.2 env' he')
   | .macroCall .., _, hg, _, _ => by simp [cgStmt] at hg
 
-theorem cStmts_c : ∀ (ss : Stmts) (lb : Nat), cgStmts lv ss = true → ∀ (env : Src.Env), PlainEnv env →
+theorem cStmts_c : ∀ (ss : Stmts) (lb : Nat), cgStmts lv ss = true → ∀ (env : Src.Env), EnvOK cx env →
     PM cx (cStmts [] lb ss) (fun k b => Src.trStmts fuel [] env (toSrcStmts ss) k b) env
   | .nil, lb, _, env, he => by
     intro s items s' h
@@ -74,7 +74,7 @@ theorem cStmts_c : ∀ (ss : Stmts) (lb : Nat), cgStmts lv ss = true → ∀ (en
     refine pieceOK_congr (seq_piece cx pA pB) (fun k b => ?_)
     simp only [toSrcStmts]; rw [Src.trStmts]
 
-theorem cElifsA_c : ∀ (es : Elifs) (lb : Nat), cgElifs lv es = true → ∀ (env : Src.Env), PlainEnv env →
+theorem cElifsA_c : ∀ (es : Elifs) (lb : Nat), cgElifs lv es = true → ∀ (env : Src.Env), EnvOK cx env →
     EAC cx fuel env (synOf es) (cElifsA [] lb es)
   | .nil, lb, _, env, he => by
     intro E s0 s as s' _ h
@@ -92,7 +92,7 @@ theorem cElifsA_c : ∀ (es : Elifs) (lb : Nat), cgElifs lv es = true → ∀ (e
     obtain ⟨e2, er⟩ := cElifsA_c r _ hg.2 env he E s0 _ _ _ (hst.trans e1) h2
     exact ⟨e1.trans e2, .cons ea er⟩
 
-theorem cElifsB_c : ∀ (es : Elifs) (lb : Nat), cgElifs lv es = true → ∀ (env : Src.Env), PlainEnv env →
+theorem cElifsB_c : ∀ (es : Elifs) (lb : Nat), cgElifs lv es = true → ∀ (env : Src.Env), EnvOK cx env →
     EBC cx fuel env (synOf es) (cElifsB [] lb es)
   | .nil, lb, _, env, he => by
     intro E s0 as hall s late s' _ h
@@ -174,7 +174,7 @@ theorem cCases_c : ∀ (cs : Cases) (lb : Nat) (sw : String), cgCases lv sw cs =
       refine ⟨e1.trans e2, fun hd => nnD (by rw [hD1]; exact waitSem_nonone ws (noNone_jump _ _)), hs ++ Hr,
         ([LItem.label sL false] ++ ops ++ [LItem.label eB false]) ++ Cr, by rw [hH2, hH1, List.append_assoc],
         by rw [hC2, hC1, List.append_assoc], ws.nonone.append n1,
-        (((noNone_label _ _).append (hP {} ⟨rfl, rfl⟩).nonone).append (noNone_label _ _)).append n2, fun hw' => ?_⟩
+        (((noNone_label _ _).append (hP {} (envOK_empty cx)).nonone).append (noNone_label _ _)).append n2, fun hw' => ?_⟩
       have hR := (hsem hw').stk e1.1 e1.2
       rw [hw1, hD1] at hR
       simp only [wSrc] at hR
@@ -230,7 +230,7 @@ theorem cCases_c : ∀ (cs : Cases) (lb : Nat) (sw : String), cgCases lv sw cs =
         (hs ++ [LItem.ljump ⟨n0, bp.name, bp.params⟩ (some sL)]) ++ Hr,
         ([LItem.label sL false] ++ ops ++ [LItem.label eB false]) ++ Cr, by rw [hH2, hH1, List.append_assoc],
         by rw [hC2, hC1, List.append_assoc], (ws.nonone.append (noNone_jump _ _)).append n1,
-        (((noNone_label _ _).append (hP {} ⟨rfl, rfl⟩).nonone).append (noNone_label _ _)).append n2, fun hw' => ?_⟩
+        (((noNone_label _ _).append (hP {} (envOK_empty cx)).nonone).append (noNone_label _ _)).append n2, fun hw' => ?_⟩
       have hR := (hsem hw').stk e1.1 e1.2
       rw [hw1, hD1] at hR
       simp only [wSrc] at hR
